@@ -817,3 +817,18 @@ def _reformat(m):
 
 for _i, _m in enumerate(_MODS + [FU]):
     VARIANTS.append(V(f'G-fmt-{_i:02d}', 'E', ALL, _m, None, r'\A.*\Z', _reformat, flags=re.S, note='module re-emitted by ast.unparse'))
+
+# ---------------------------------------------------------------------- assignment expressions (walrus) in loop / if tests
+VARIANTS += [
+    V('G-wl-01', 'E', ALL, ST, 'fifo_stream', r'while True:\n(\s+)z = tasks\.get\(\)\n\s+if z is None:\n\s+break\n', r'while (z := tasks.get()) is not None:\n'),
+    V('G-wl-02', 'E', ALL, ST, 'Buffer.__iter__', r'while True:\n(\s+)z = tasks\.get\(\)\n\s+if z == finished:\n\s+break\n', r'while (z := tasks.get()) != finished:\n'),
+    V('G-wl-03', 'E', ALL, SV, 'Server._gather_output', r'z = q_out\.get\(\)\n(\s+)if z is None:\n', r'if (z := q_out.get()) is None:\n'),
+    V('G-wl-04', 'E', ALL, WK, 'Worker._start_single.get_input', r'z = q_in\.get\(\)\n(\s+)if z is None:\n', r'if (z := q_in.get()) is None:\n'),
+    V('G-wl-05', 'E', ALL, SV, 'Server._gather_output.notify', r'z = q\.get\(\)\n(\s+)if z is None:\n', r'if (z := q.get()) is None:\n'),
+    V('G-wl-06', 'E', ALL, CX, 'SpawnProcess._run_logger', r'record = q\.get\(\)\n(\s+)if record is None:\n', r'if (record := q.get()) is None:\n'),
+    V('G-wl-07', 'E', ALL, SL, 'EnsembleServlet._dequeue', r'z = catalog\.get\(uid\)\n(\s+)if z is None:\n', r'if (z := catalog.get(uid)) is None:\n'),
+]
+
+VARIANTS += [
+    V('C20-M24', 'M', ('C20',), CX, 'SpawnProcess.start', r'\n\s+self\._logger_queue_\.put\(_LOGGER_QUEUE_WARMUP\)', '', ('C20-5',), note='D18 shape: the end marker is the first put on the log queue'),
+]
